@@ -306,3 +306,95 @@ func verifHarnessC02List() {
 	assert("entries", ok)
 	reach("end")
 }
+
+// ---------- bounded histories from the empty database against an executable map model ----------
+
+// verifModelStep applies one operation to the reference model (the statement's "plain map model") and returns its result.
+func verifModelStep(m map[string]*secret, op int, name string, ver api.SecretVersion, val []byte) (api.SecretVersion, bool) {
+	reserved := hasConfigPrefix(name)
+	switch op {
+	case opPut:
+		if name == "" || reserved {
+			return 0, false
+		}
+		s := m[name]
+		if s == nil {
+			m[name] = &secret{Versions: map[api.SecretVersion]byteString{1: byteString(val)}, ActiveVersion: 1, LatestVersion: 1}
+			return 1, true
+		}
+		if cur, ok := s.Versions[s.LatestVersion]; ok && cur == byteString(val) {
+			return s.LatestVersion, true
+		}
+		s.LatestVersion++
+		s.Versions[s.LatestVersion] = byteString(val)
+		return s.LatestVersion, true
+	case opActivate:
+		if name == "" || reserved || ver == 0 {
+			return 0, false
+		}
+		s := m[name]
+		if s == nil {
+			return 0, false
+		}
+		if _, ok := s.Versions[ver]; !ok {
+			return 0, false
+		}
+		s.ActiveVersion = ver
+		return 0, true
+	case opDeleteVersion:
+		if reserved || ver == 0 {
+			return 0, false
+		}
+		s := m[name]
+		if s == nil || s.ActiveVersion == ver {
+			return 0, false
+		}
+		if _, ok := s.Versions[ver]; !ok {
+			return 0, false
+		}
+		delete(s.Versions, ver)
+		return 0, true
+	case opDelete:
+		if reserved {
+			return 0, false
+		}
+		delete(m, name)
+		return 0, true
+	}
+	return 0, true
+}
+
+func verifHarnessC02History() {
+	k := &kv{path: verifDBPath(false), secrets: map[string]*secret{}, dekCipher: verifAEAD{key: 7}, dekRaw: []byte("wrapped-dek")}
+	d := verifDB(k, &verifSink{})
+	model := map[string]*secret{}
+	// a small pool of names so that operations interact
+	names := []string{nondetString("pool"), nondetString("pool")}
+	for step := 0; step < param("steps"); step++ {
+		op := []int{opPut, opActivate, opDeleteVersion, opDelete, opGet}[nondetChoice("op", 5)]
+		name := names[nondetChoice("which", 2)]
+		ver := api.SecretVersion(nondetU32("version"))
+		assume(ver <= 4)
+		val := nondetSeq("val")
+		if op == opGet {
+			sv, err := d.Get(verifSuperuser(), name)
+			ms := model[name]
+			if ms == nil {
+				assert("get-absent", and(sv == nil, err != nil))
+			} else {
+				assert("get-model", and(err == nil, sv != nil))
+				assert("get-model-pair", and(sv.Version == ms.ActiveVersion, byteString(sv.Value) == ms.Versions[ms.ActiveVersion]))
+			}
+			continue
+		}
+		res := verifCallOp(d, op, verifSuperuser(), name, ver, val)
+		mv, mok := verifModelStep(model, op, name, ver, val)
+		assert("success-as-model", (res.err == nil) == mok)
+		if op == opPut && mok {
+			assert("version-as-model", res.version == mv)
+		}
+		assert("state-as-model", deepEq(k.secrets, model))
+		assert("invariant-reached", verifKVInv(k))
+	}
+	reach("end")
+}
